@@ -103,11 +103,42 @@ func init() {
 		n := slLen(s)
 		ex.panics = append(ex.panics, panicExit{reach: And(ns.reach, leT(n, IntLit64(0, SInt))), what: "slices.Max of an empty slice (" + f.pos(x.Pos()) + ")"})
 		ns.reach = vc.Define(f.prefix+"Rnp", And(ns.reach, ltT(IntLit64(0, SInt), n)))
+		ex.needPrelude("lists")
 		r := vc.Declare(f.prefix+"max", s.Sort.Elem)
+		if s.Sort.Elem.Kind == KInt {
+			vc.Assume(Implies(ns.reach, Eq(r, App(SInt, "sliceMax", s))), "slices.Max is a function of the slice")
+		}
 		w := vc.Declare(f.prefix+"max_at", SInt)
 		i := Atom("q_i", SInt)
 		vc.Assume(Implies(ns.reach, And(leT(IntLit64(0, SInt), w), ltT(w, n), Eq(Select(slArr(s), w), r))), "slices.Max: the maximum is an element")
 		vc.Assume(Implies(ns.reach, forallInt("q_i", Implies(And(leT(IntLit64(0, SInt), i), ltT(i, n)), leT(Select(slArr(s), i), r)))), "slices.Max: bounds every element")
+		return []Val{{T: r}}
+	}
+}
+
+func init() {
+	// errors.As(err, target): true at least when the dynamic type of err is the element type of target (a chain of
+	// wrapped errors may also match: the result is otherwise arbitrary). *target is overwritten with an arbitrary value.
+	externals["errors.As"] = func(f *Frame, ns *nodeState, x *ssa.Call, fn *ssa.Function, args []Val) []Val {
+		ex, vc := f.ex, f.ex.vc
+		mi, ok := x.Common().Args[1].(*ssa.MakeInterface)
+		if !ok {
+			ex.fail("errors.As: target is not a freshly boxed pointer")
+		}
+		pt, ok := mi.X.Type().Underlying().(*types.Pointer)
+		if !ok {
+			ex.fail("errors.As: target is not a pointer")
+		}
+		p := f.operand(ns.env, mi.X)
+		lv := f.derefPtr(ns, p, pt.Elem(), "errors.As target", x.Pos())
+		hv := f.havocVal(pt.Elem(), f.prefix+"as_target", ns.reach)
+		ex.storeLV(ns.st, lv, ex.toData(ns.st, hv, pt.Elem()))
+		r := vc.Declare(f.prefix+"as_ok", SBool)
+		e := args[0].T
+		is := vc.IfaceSort()
+		same := And(Not(Eq(e, Atom(is.Alt, is))), Eq(FieldOf(e, 0), IntLit64(int64(vc.TypeID(pt.Elem())), SInt)))
+		vc.Assume(Implies(And(ns.reach, same), r), "errors.As: an error whose dynamic type is the target's element type matches")
+		vc.Assume(Implies(And(ns.reach, Eq(e, Atom(is.Alt, is))), Not(r)), "errors.As: nil matches nothing")
 		return []Val{{T: r}}
 	}
 }
